@@ -9,5 +9,7 @@ def check(ctx, rep):
     gen.gen_6(ctx, rep)
     thompson.gen_5(ctx, rep)      # EBNF -> NFA fragments: language of every construction path
     gr.gr_1_4(ctx, rep, with_follow=True)
+    from ..rules import eff as _eff1
+    _eff1.eff_1(ctx, rep, only=[('parso/pgen2/generator.py', 'generate_grammar')], minimum=5)     # nothing outlives a call: the result is a function of the arguments alone
     rep.note('Not decided: faithfulness of the NFA -> DFA subset construction and of the first-set / plan tables as an '
              'input/output relation (the EBNF -> NFA step is decided by GEN-5 up to its stated bounds).')
